@@ -60,6 +60,116 @@ def run(chk) -> None:
     _r13b(chk, repo, af)
     chk.rule("R13c", "nested segments are validated under the same node budget as the file: the recursive apply_fixes call inside apply_fixes passes its own max_parse_nodes parameter on")
     _r13c(chk, repo, af)
+    chk.rule("R13d", "validate_segment_with_reparse answers True only on the declared-empty arm or after a complete re-match whose unparsable sections are a subset of those present before; a re-parse that raised is never reported as valid")
+    _r13d(chk, repo)
+
+
+BASE = "src/sqlfluff/core/parser/segments/base.py"
+
+
+def _r13d(chk, repo) -> None:
+    """The oracle behind R13b(iii).  In ``BaseSegment.validate_segment_with_reparse`` every ``return``
+    whose value is not the constant ``False`` is
+
+    * never inside an ``except`` handler (a re-parse that raised cannot confirm anything);
+    * either the *empty arm* -- dominated by "the content handed to ``self.match`` is empty" and
+      ``self.can_start_end_non_code`` --
+    * or the *full arm*: every path to it runs ``self.match(..)``, it is dominated by the truth of
+      ``<match>.matched_slice == slice(0, len(<content>))`` for that same content, and by (or its
+      value is) the set comparison "unparsables before >= unparsables after" with the *before* side
+      crawled from ``self``.
+    """
+    vf = repo.fn(BASE, "BaseSegment." + VALIDATE)
+    cfg = cfg_of(vf)
+    calls = [c for c in walk_local(vf) if isinstance(c, ast.Call) and isinstance(c.func, ast.Attribute) and c.func.attr == "match" and c.args]
+    chk.count("R13d.match_calls", len(calls))
+    if len(calls) != 1:
+        raise AnalysisError("R13d: validate_segment_with_reparse no longer holds exactly one .match(..) call; re-confirm the anchor by hand")
+    mcall = calls[0]
+    mstmt = cfg.stmt_of(mcall)
+    content = norm(expanded(cfg, mcall.args[0], mstmt))
+    content_name = norm(mcall.args[0])
+
+    def in_handler(n) -> bool:
+        p = getattr(n, "_parent", None)
+        while p is not None and p is not vf:
+            if isinstance(p, ast.ExceptHandler):
+                return True
+            p = getattr(p, "_parent", None)
+        return False
+
+    def is_content(e, at) -> bool:
+        return norm(e) == content_name or norm(expanded(cfg, e, at)) == content
+
+    def full_match_atom(e, pol, at) -> bool:
+        x = expanded(cfg, e, at)
+        if not (isinstance(x, ast.Compare) and len(x.ops) == 1):
+            return False
+        if not ((isinstance(x.ops[0], ast.Eq) and pol) or (isinstance(x.ops[0], ast.NotEq) and not pol)):
+            return False
+        for a, b in ((x.left, x.comparators[0]), (x.comparators[0], x.left)):
+            if not (isinstance(a, ast.Attribute) and a.attr == "matched_slice" and ".match(" in norm(a.value)):
+                continue
+            if not (isinstance(b, ast.Call) and call_name(b) == "slice" and len(b.args) == 2 and not b.keywords):
+                continue
+            lo, hi = b.args
+            if isinstance(lo, ast.Constant) and lo.value == 0 and isinstance(hi, ast.Call) and call_name(hi) == "len" and len(hi.args) == 1:
+                if norm(hi.args[0]) in (content, content_name):
+                    return True
+        return False
+
+    def before_side(e, at) -> bool:
+        t = norm(expanded(cfg, e, at))
+        return "self.recursive_crawl(" in t and "unparsable" in t
+
+    def subset_atom(e, pol, at) -> bool:
+        if not (pol and isinstance(e, ast.Compare) and len(e.ops) == 1):
+            return False
+        l, r = e.left, e.comparators[0]
+        if isinstance(e.ops[0], ast.GtE):
+            return before_side(l, at) and not before_side(r, at)
+        if isinstance(e.ops[0], ast.LtE):
+            return before_side(r, at) and not before_side(l, at)
+        return False
+
+    rets = [n for n in walk_local(vf) if isinstance(n, ast.Return)]
+    for r in rets:
+        v = r.value
+        if isinstance(v, ast.Constant) and v.value is False:
+            chk.count("R13d.negative_returns")
+            continue
+        chk.count("R13d.positive_returns")
+        if not chk.require(
+            not in_handler(r), "R13d", r,
+            "validate_segment_with_reparse answers something other than False from an except handler: a re-parse that raised (depth or node limit, unbalanced brackets) is "
+            "reported as a successful validation and the fix loop adopts a tree that does not parse",
+            detail="validate: no positive answer from a handler",
+        ):
+            continue
+        conds = [(e, pol, g.stmt) for g in cfg.guards(r) for e, pol in branch_atoms(cfg, g)]
+        empty = any(pol is False and is_content(e, at) for e, pol, at in conds) and any(
+            pol is True and (attr_chain(e) or ("",))[-1] == "can_start_end_non_code" for e, pol, at in conds
+        )
+        if empty and isinstance(v, ast.Constant) and v.value is True:
+            chk.ok("R13d", "validate_segment_with_reparse", "empty arm: no content and the segment may be empty")
+            chk.count("R13d.empty_arm")
+            continue
+        ran = must_pass(cfg, cfg.entry, r, [mstmt])
+        full = any(full_match_atom(e, pol, at) for e, pol, at in conds)
+        sub = any(subset_atom(e, pol, at) for e, pol, at in conds) and isinstance(v, ast.Constant) and v.value is True
+        if not sub and v is not None and not isinstance(v, ast.Constant):
+            sub = subset_atom(expanded(cfg, v, r), True, r)
+        missing = [t for t, okk in (("the re-match was run", ran), ("the re-match covers the whole content (matched_slice == slice(0, len(content)))", full), ("unparsables before >= unparsables after", sub)) if not okk]
+        chk.count("R13d.full_arm")
+        chk.require(
+            not missing, "R13d", r,
+            "validate_segment_with_reparse can answer True although " + "; ".join("it is not established that " + m for m in missing)
+            + ": an edited segment that no longer parses completely (or gained an unparsable section) is declared valid and the fix loop adopts it",
+            detail="validate: positive answer implies full re-match without new unparsables",
+        )
+    chk.floor("R13d.positive_returns", 1)
+    chk.floor("R13d.full_arm", 1)
+    chk.floor("R13d.negative_returns", 1)
 
 
 def _r13c(chk, repo, af) -> None:
@@ -548,6 +658,67 @@ def _stable(o, af) -> str:
 from ..selftest import Variant  # noqa: E402
 
 VARIANTS = [
+    # R13d: the re-parse oracle itself
+    Variant(
+        "r13d-handler-answers-true", BASE,
+        '            linter_logger.debug(f"Validation Check Fail for {self}. {err.desc()}")\n            return False\n',
+        '            linter_logger.debug(f"Validation Check Fail for {self}. {err.desc()}")\n            return True\n',
+        "R13d", "validate_segment_with_reparse", "a re-parse that hit the node budget counts as valid",
+    ),
+    Variant(
+        "r13d-incomplete-match-falls-through", BASE,
+        "                )\n                return False\n            new_segments = rematch.apply",
+        "                )\n            new_segments = rematch.apply",
+        "R13d", "validate_segment_with_reparse", "incomplete re-match only logged",
+    ),
+    Variant(
+        "r13d-subset-test-reversed", BASE,
+        "        if opening_unparsables >= closing_unparsables:\n",
+        "        if opening_unparsables <= closing_unparsables:\n",
+        "R13d", "validate_segment_with_reparse", "new unparsable sections accepted, removed ones rejected",
+    ),
+    Variant(
+        "r13d-final-answer-true", BASE,
+        '            linter_logger.debug("Unparsable:\\n%s\\n", unparsable)\n        return False\n',
+        '            linter_logger.debug("Unparsable:\\n%s\\n", unparsable)\n        return True\n',
+        "R13d", "validate_segment_with_reparse", "additional unparsables logged but accepted",
+    ),
+    Variant(
+        "r13d-empty-arm-for-every-segment", BASE,
+        "        if not trimmed_content and self.can_start_end_non_code:\n",
+        "        if not trimmed_content:\n",
+        "R13d", "validate_segment_with_reparse", "a segment emptied by a fix is valid whatever its class",
+    ),
+    Variant(
+        "r13d-slice-compared-with-other-content", BASE,
+        "            if not rematch.matched_slice == slice(0, len(trimmed_content)):\n",
+        "            if not rematch.matched_slice == slice(0, len(rematch.matched_slice.indices(len(trimmed_content)))):\n",
+        "R13d", "validate_segment_with_reparse", "completeness compared against something that is not the content length",
+    ),
+    Variant(
+        "quiet-r13d-not-equal-spelling", BASE,
+        "            if not rematch.matched_slice == slice(0, len(trimmed_content)):\n",
+        "            if rematch.matched_slice != slice(0, len(trimmed_content)):\n",
+        "QUIET", None, "R13d: != instead of not ==",
+    ),
+    Variant(
+        "quiet-r13d-whole-slice-in-a-local", BASE,
+        "            if not rematch.matched_slice == slice(0, len(trimmed_content)):\n",
+        "            whole = slice(0, len(trimmed_content))\n            if not rematch.matched_slice == whole:\n",
+        "QUIET", None, "R13d: expected slice through a local",
+    ),
+    Variant(
+        "quiet-r13d-subset-operands-swapped", BASE,
+        "        if opening_unparsables >= closing_unparsables:\n",
+        "        if closing_unparsables <= opening_unparsables:\n",
+        "QUIET", None, "R13d: subset test written from the other side",
+    ),
+    Variant(
+        "quiet-r13d-empty-arm-nested-ifs", BASE,
+        "        if not trimmed_content and self.can_start_end_non_code:\n            # Edge case for empty segments which are allowed to be empty.\n            return True\n",
+        "        if not trimmed_content:\n            if self.can_start_end_non_code:\n                return True\n",
+        "QUIET", None, "R13d: the empty arm as two nested tests",
+    ),
     Variant(
         "nested-validation-without-the-node-budget", FIX,
         "            fixes,\n            max_parse_depth=max_parse_depth,\n            max_parse_nodes=max_parse_nodes,\n",
